@@ -11,7 +11,7 @@ OPS = {
 }
 
 
-def tie(n, tag, name=None, lk=None, consts="", same=False):
+def tie(n, tag, name=None, lk=None, consts="", same=False, ns="Impls", thm=None):
     name = name or f"tuple{n}"
     lk = lk or f".numbered {n}"
     o = OPS[tag]
@@ -26,14 +26,14 @@ def tie(n, tag, name=None, lk=None, consts="", same=False):
     if o["mut"]:
         hyps = " ".join(f"(h{i} : ∀ t ks, {conv} (c{i} t ks).1 = {view}(t.walk io {o['op']} ks).res ∧ (c{i} t ks).2 = (t.walk io {o['op']} ks).tree)"
                         for i in range(nch))
-        concl = (f"∃ es r, Impls.{name}.{o['fn']} keysNextM {cs} elems ks = .val (es, r) ∧\n"
+        concl = (f"∃ es r, {ns}.{name}.{o['fn']} keysNextM {cs} elems ks = .val (es, r) ∧\n"
                  f"      {conv} r = {view}{walk(node)}.res ∧\n"
                  f"      Tree.node false none ({lk}) (plainFields es) = {walk(node)}.tree")
         err = "exact ⟨_, _, rfl, by simp [resOfGen, anyOfGen, anyView, travToGen, travOfGen], rfl⟩"
         apply = "applyAt"
     else:
         hyps = " ".join(f"(h{i} : ∀ t ks, {conv} (c{i} t ks) = {view}(t.walk io {o['op']} ks).res)" for i in range(nch))
-        concl = (f"∃ r, Impls.{name}.{o['fn']} keysNextM {cs} elems ks = .val r ∧\n"
+        concl = (f"∃ r, {ns}.{name}.{o['fn']} keysNextM {cs} elems ks = .val r ∧\n"
                  f"      {conv} r = {view}{walk(node)}.res")
         err = "exact ⟨_, rfl, by simp [resOfGen, anyOfGen, anyView, travToGen, travOfGen]⟩"
         apply = "applyAtR"
@@ -65,12 +65,12 @@ def tie(n, tag, name=None, lk=None, consts="", same=False):
                  f"    rcases hi' with {' | '.join('rfl' for _ in range(n))}")
         arms = "\n".join(arm(i) for i in range(n))
     return f'''
-theorem {name}_{tag}_tie (io : Io) (elems : List Tree) (hlen : elems.length = {n}) (ks : KeySrc)
+theorem {thm or name + '_' + tag + '_tie'} (io : Io) (elems : List Tree) (hlen : elems.length = {n}) (ks : KeySrc)
     (hnp : ∀ s, ks.next ({lk}) ≠ .error (.panic s))
     ({cs} : {cty})
     {hyps} :
     {concl} := by
-  simp only [Impls.{name}.{o['fn']}, {consts}Impls.KeyLookup.numbered, nonZeroNew, keysNextM, lookupOfGen, Tree.walk]
+  simp only [{ns}.{name}.{o['fn']}, {consts}Impls.KeyLookup.numbered, nonZeroNew, keysNextM, lookupOfGen, Tree.walk]
   try simp +decide only [↓reduceIte]
   cases hnext : ks.next ({lk}) with
   | error e =>
@@ -87,7 +87,9 @@ theorem {name}_{tag}_tie (io : Io) (elems : List Tree) (hlen : elems.length = {n
 '''
 
 
-out = ['''import MiniconfVerif.Lemmas.GenTieValue
+# the part below writes Lemmas/GenTieTuples.lean; it runs only when this file is executed (gen_derive.py imports `tie`)
+MAIN = r'''
+out = [@@@import MiniconfVerif.Lemmas.GenTieValue
 
 /-! GENERATED ONCE by tools/mk_tuple_value_ties.py (committed): `Tree.walk` at a tuple (a `numbered n` node whose fields
 carry no attributes) agrees with `TreeSerialize` / `TreeDeserialize` / `TreeAny` of the n-tuples as translated from the
@@ -96,7 +98,7 @@ carry no attributes) agrees with `TreeSerialize` / `TreeDeserialize` / `TreeAny`
 set_option linter.unusedSimpArgs false
 namespace MiniconfVerif.GenTie
 open MiniconfVerif MiniconfVerif.Gen MiniconfVerif.Gen.Core
-''']
+@@@]
 names = []
 for n in range(1, 9):
     for tag in OPS:
@@ -110,14 +112,18 @@ for rust, lkn, n_, consts in (("Range", '.named ["start", "end"]', 2, "Impls.RAN
         names.append(f"{rust}_{tag}_tie")
 out.append(tie(2, "ser", name="RangeInclusive", lk='.named ["start", "end"]', consts="Impls.RANGE_LOOKUP, ", same=True))
 names.append("RangeInclusive_ser_tie")
-out.append('''
+out.append(@@@
 /-- all tuple value-level ties as one statement -/
 def TupleValueTies : Prop :=
-  ''' + " ∧\n  ".join(f"type_of% @{x}" for x in names) + '''
+  @@@ + " ∧\n  ".join(f"type_of% @{x}" for x in names) + @@@
 
 theorem tupleValueTies : TupleValueTies :=
-  ⟨''' + ", ".join(f"@{x}" for x in names) + '''⟩
+  ⟨@@@ + ", ".join(f"@{x}" for x in names) + @@@⟩
 
 end MiniconfVerif.GenTie
-''')
+@@@)
 open(os.path.join(os.path.dirname(__file__), "..", "lean", "MiniconfVerif", "Lemmas", "GenTieTuples.lean"), "w").write("".join(out))
+
+'''
+if __name__ == "__main__":
+    exec(MAIN.replace('@@@', "'''"))
